@@ -137,7 +137,10 @@ func main() {
 	for _, cs := range configs {
 		res, unit, docs, err := runConfig(pd, *repo, cs, nil)
 		if err != nil {
-			broken = append(broken, fmt.Sprintf("%s: %v", cs, err))
+			// a tree that does not load / type-check, or a rule that panics on an
+			// unexpected code shape, cannot be decided: that fails the check
+			// (exit 1), it is not a pass
+			all = append(all, Result{Rule: pd.ID + "-LOAD", Key: pd.ID + "-LOAD|" + cs.String(), Status: StUndecided, Pos: "-", Msg: fmt.Sprintf("configuration %s could not be analysed: %v", cs, trunc(err.Error(), 1500)), Config: cs.String()})
 			continue
 		}
 		for k, v := range docs {
